@@ -356,6 +356,72 @@ def r6_1d(F, R):
         R.violation("R6.1d", "Scaled::new/carry", "the range check in Scaled::new does not include the whole points carried from the converted fraction", fn.loc(final))
 
 
+STD_CLASSIFIERS = ("to_digit", "is_digit", "is_ascii_digit", "is_ascii_hexdigit", "is_numeric", "is_alphanumeric", "is_ascii_alphanumeric",
+                   "from_str_radix", "from_str", "parse")
+FLOORING = ("div_euclid", "rem_euclid", "div_floor", "checked_div_euclid", "checked_rem_euclid", "wrapping_div_euclid", "wrapping_rem_euclid")
+
+
+def r6_5(F, R):
+    R.rule("R6.5", "TeX's own classification and rounding on the scanning path: (a) the number scanner (texlang::parse) never uses std's digit "
+                   "classifiers or parsers (char::to_digit, is_ascii_hexdigit, str::parse, from_str_radix, ...): they accept lower-case hex digits, "
+                   "signs, underscores or Unicode digits that TeX §§444-445 does not; (b) scaled arithmetic (common::Scaled, texlang::parse, "
+                   "texlang-stdlib math) divides with Rust's truncating `/` and `%` as TeX does (toward zero), never with flooring operations "
+                   "(div_euclid, rem_euclid, arithmetic shift right of a signed value)")
+    from ..pps import Discharger, INT_RANGE
+    n_calls = 0
+    canary_a = canary_b = 0
+    for fn in sorted(F.fns.values(), key=lambda f: f.name):
+        if "::tests::" in fn.name or "::testing::" in fn.name:
+            continue
+        nm = strip_generics(fn.name)
+        in_scan = nm.startswith("texlang::parse::")
+        in_arith = in_scan or nm.startswith("common::Scaled::") or nm.startswith("<common::Scaled as ") or nm.startswith("<common::Glue as ") or nm.startswith("texlang_stdlib::math::") or nm.startswith("<texlang_stdlib::math::")
+        is_canary = fn.crate in ("common.lib", "tfm.lib")
+        if not (in_scan or in_arith or is_canary):
+            continue
+        ka = kb = 0
+        D = None
+        for bi, t in fn.calls():
+            n_calls += 1
+            cn = strip_generics(callee_name(t) or "")
+            short = cn.split("::")[-1]
+            is_cls = short in STD_CLASSIFIERS and ("core::char::methods" in cn or "core::str::" in cn or "core::num::" in cn or "FromStr" in cn)
+            is_floor = short in FLOORING and "core::num::" in cn
+            if is_cls:
+                if in_scan:
+                    R.violation("R6.5", "%s/%s#%d" % (nm, short, ka), "%s classifies or converts source characters with std's `%s`, which does not agree with "
+                                "TeX's digit rules (for example it accepts lower-case hex digits)" % (fn.name, short), fn.loc(t))
+                    ka += 1
+                elif is_canary:
+                    canary_a += 1
+            if is_floor:
+                if in_arith:
+                    R.violation("R6.5", "%s/%s#%d" % (nm, short, kb), "%s uses the flooring operation `%s` in scaled arithmetic: TeX truncates toward zero, so "
+                                "negative operands come out 1sp too small" % (fn.name, short), fn.loc(t))
+                    kb += 1
+                elif is_canary:
+                    canary_b += 1
+        if in_arith:
+            for bi, b in enumerate(fn.blocks):
+                for st in b["s"]:
+                    if st["k"] == "=" and st["rv"]["k"] == "bin" and st["rv"]["op"] == "Shr":
+                        p = op_place(st["rv"]["a"])
+                        ty = fn.local_ty(p["l"]) if p is not None and not p["p"] else st["rv"]["a"].get("c", {}).get("ty")
+                        if ty in ("i8", "i16", "i32", "i64", "i128", "isize"):
+                            D = D or Discharger(F, fn)
+                            src = D.src_local(st["rv"]["a"])
+                            lo, hi = D.range_of(src["l"], bi) if src is not None and not src["p"] else (None, None)
+                            if lo is not None and lo >= 0:
+                                continue
+                            R.violation("R6.5", "%s/shr#%d" % (nm, kb), "%s shifts a signed value right (`>>` floors) in scaled arithmetic: TeX divides with "
+                                        "truncation toward zero" % fn.name, fn.loc(st))
+                            kb += 1
+    R.floor("R6.5", "calls examined", n_calls, 500)
+    R.floor("R6.5", "std classifier calls recognised in the canary crates (common/tfm string utilities)", canary_a, 1)
+    R.floor("R6.5", "flooring calls recognised in the canary crates (tfm checksum)", canary_b, 1)
+    R.ok("R6.5", "number scanner and scaled arithmetic", "no std classifier on the scanning path, no flooring division (canaries recognised: %d, %d)" % (canary_a, canary_b), None, how="layering")
+
+
 def r6_2(F, R, tier):
     from ..pps_run import run_pps
     from .pps_c09 import CHA, ENTRY, REGISTRY
@@ -388,6 +454,7 @@ def run(F, R, tier):
     r6_1d(F, R)
     r6_3(F, R)
     r6_4(F, R)
+    r6_5(F, R)
     r6_2(F, R, tier)
     return ("Static analysis (partial claim). Decided: the operator table of \\advance/\\multiply/\\divide (wrap / checked+error / checked+error, error => no "
             "store) by finite-domain specialisation; the unit conversion fractions and both keyword tables against TeX §458; every potential-panic site of "
